@@ -18,6 +18,8 @@ import (
 	"errors"
 	"fmt"
 	"net/url"
+	"strconv"
+	"strings"
 )
 
 import (
@@ -96,11 +98,33 @@ func checkSupportCompress(acceptEncoding string) bool {
 }
 
 func checkSupportGzipCompress(acceptEncoding string) bool {
-	return bfe_http.HasToken(acceptEncoding, EncodeGzip)
+	return bfe_http.HasToken(acceptEncoding, EncodeGzip) && !checkEncodingRefused(acceptEncoding, EncodeGzip)
 }
 
 func checkSupportBrotliCompress(acceptEncoding string) bool {
-	return bfe_http.HasToken(acceptEncoding, EncodeBrotli)
+	return bfe_http.HasToken(acceptEncoding, EncodeBrotli) && !checkEncodingRefused(acceptEncoding, EncodeBrotli)
+}
+
+// checkEncodingRefused checks whether encoding is listed with a qvalue of 0
+// in Accept-Encoding (eg. "gzip ;q=0"), which means "not acceptable".
+// See RFC 7231, section 5.3.4
+func checkEncodingRefused(acceptEncoding string, encoding string) bool {
+	for _, coding := range strings.Split(acceptEncoding, ",") {
+		params := strings.Split(coding, ";")
+		if !strings.EqualFold(strings.TrimSpace(params[0]), encoding) {
+			continue
+		}
+		for _, param := range params[1:] {
+			param = strings.ToLower(strings.TrimSpace(param))
+			if !strings.HasPrefix(param, "q=") {
+				continue
+			}
+			if q, err := strconv.ParseFloat(strings.TrimSpace(param[2:]), 64); err == nil && q == 0 {
+				return true
+			}
+		}
+	}
+	return false
 }
 
 func (m *ModuleCompress) getCompressRule(req *bfe_basic.Request) (*compressRule, error) {
